@@ -1,32 +1,55 @@
 """C14 — Any input string is parsed or rejected with the library's parsing error.
 
-Correspondence stream `c01` (op `terms`): the outcome class (ok / FormulaParsingError / SyntaxError /
-internal:<type>) of the real `DefaultFormulaParser(flags).get_terms(s)` against the Lean model, on
-exhaustive short strings over an adversarial alphabet, random Unicode strings and mutated valid
-formulas, for every feature-flag subset.
-Oracle (impl only): the outcome is a formula or FormulaParsingError; a plain SyntaxError only when
-some Python fragment of the string is itself invalid; operators disabled by feature flags never
-appear in a result; parsing terminates (per-case wall-clock cap).
+Correspondence stream `c14` (engine `Engines/C14.lean`; ops `terms`, `api`, `spec`, `resolve`): the outcome (a term structure /
+tokens / syntax tree / formula, or the class FormulaParsingError / SyntaxError / FormulaInvalidError / internal:<type>) of the
+real entry points against the Lean model:
+* `DefaultFormulaParser(flags).get_terms(s)` on exhaustive short strings over an adversarial alphabet, random Unicode strings,
+  mutated valid formulas, multistage nestings, exponent literals, a fixed table of Python fragments with degenerate back-quoted
+  names, Python fragments CPython cannot digest, parsers with a history (reconfigured / pickled / deep-copied);
+* every entry point around it (`api`): `parse(target=…)` with int / str / enum targets, `get_tokens`, `get_ast`, `get_terms`, on
+  `DefaultFormulaParser` and on the base class `FormulaParser(operator_resolver=DefaultOperatorResolver(<flag names>))`;
+* `Formula(<list / tuple / dict / keyword specification>)` with string, Term, Formula and non-specification leaves (`spec`);
+* `DefaultOperatorResolver.resolve(<operator token>)` with the sign-collapsing loop as written (`resolve`).
+Oracle (impl only): the outcome is a formula or FormulaParsingError; a plain SyntaxError only when some Python fragment of the
+string is itself rejected by Python; FormulaInvalidError only for a specification with a leaf that is none; operators disabled by
+feature flags never appear in a result or a syntax tree; parsing terminates (per-case wall-clock cap).
 """
 from __future__ import annotations
 
 import itertools
+import json
 import re
 
 from harness import parser_common as pc
 from harness.props import c01
 
 PROPERTY = "C14"
-ENGINE = "c01"
-REQUIRED_THEOREMS = ["shunt_errors_are_syntax", "eval_plain_no_internal", "pySyntax_only_from_fragment", "disabled_never_used", "no_internal_error", "eval_no_internal"]
-TRUSTED = list(c01.TRUSTED)
+ENGINE = "c14"
+REQUIRED_THEOREMS = ["shunt_errors_are_syntax", "eval_plain_no_internal", "pySyntax_only_from_fragment", "disabled_never_used",
+                     "no_internal_error", "eval_no_internal",
+                     "internal_error_only_nested_multistage", "no_internal_error_multistage_partial", "merge_fuel_suffices",
+                     "nested_multistage_escapes", "resolve_loop_terminates", "resolve_loop_is_one_pass",
+                     "parse_targets_internal", "parse_at_terms_is_get_terms", "base_parser_internal", "base_parser_tree",
+                     "formula_spec_internal", "leaves_accepted_by_to_factor", "feature_flag_names_denote",
+                     "feature_flag_aliases", "api_tables_live", "first_error_any_order", "evaluates_iff_no_failing_node",
+                     "alias_loop_terminates", "normaliser_fails_only_with_syntax_error", "internal_error_down_to_format_expr",
+                     "simplify_fuel_suffices"]
+TRUSTED = list(c01.TRUSTED) + [
+    "Gen/ParseApi.lean (regenerated on every run): FormulaParser.Target members, FeatureFlags members and aliases, CONTEXT_OPENERS/CLOSERS, Token.to_factor's kind map (probed by calling it)",
+    "format_expr (ast.parse / ast.unparse) is the only piece of sanitize_python_code that is NOT modelled: its result on the expression the model's own sanitize_variable_names produces enters as per-case data (keyed by that expression, computed with the real code: a different expression is a disagreement); str.isspace of the string's characters enters as data; the alias pass and the restoration are the model shared with C15 (Model/PyAlias.lean: ASCII word classes, keyword.kwlist and the alias template read from the live package by the translator)",
+]
 ASSUMPTIONS = [
-    "strings whose exponent literal has two or more digits are excluded from the random streams (x**11 is valid and takes 2^11.. steps)",
+    "exponent literals of two or more digits: the Lean model expands the n-fold product literally and is not run on them; they are covered by the `bigexp` oracle stream (outcome class, termination, same result as the exponent-5 twin) on the implementation only",
+    "the interpreter's recursion limit is not modelled: the model evaluates trees of any depth; the implementation's RecursionError for multistage stages nested >160 deep is known finding C14-F3",
+    "Formula(<dict>) with a structure key that starts with an underscore (ValueError of Structured.__init__) or a non-string key (TypeError of the ** call) is API misuse outside the property; the model returns internal:ValueError for it and the theorem excludes it by hypothesis",
+    "configuration errors (a feature-flag NAME or a parse target that does not exist: AttributeError / ValueError / KeyError) are modelled as internal outcomes and compared, but are not part of the property (the oracle is silent on them)",
 ]
 RULE = (
     "quick: all strings of length <=3 over the 21-symbol alphabet a b 1 0 + - * : / ^ ( ) [ ] ~ | ` { } space . (9724 strings) "
     "+ random strings over an extended alphabet incl. quotes, %, dots, commas, non-ASCII letters/digits/spaces (length<=12) + mutated "
     "grammar-derived formulas, each with a random feature-flag subset and intercept setting; thorough: length<=4 exhaustively (204205); plus 'reconfig' cases: a parser that was used under wider feature flags and then narrowed with set_feature_flags, or that was pickled and restored / deep-copied after use, must behave like a fresh parser with the same flags; and 10x the random streams. "
+    "Fixed tables run on every seed: exponent literals (incl. exponents above the number of terms, checked against the literal n-fold product of the model); `degenerate`: 44 degenerate back-quoted names x 15 Python-fragment shapes + 9 positions (lhs of ~, multi-part, multistage); `deepfrag`: Python fragments nested 600-1200 deep / NUL / lone surrogates (CPython's RecursionError, MemoryError, UnicodeEncodeError); `bigexp`: exponents of 2..5000 digits (oracle only); multistage nestings 120/200/400 deep (C14-F3). "
+    "`api`: targeted + random strings x parser {DefaultFormulaParser, base FormulaParser} x target {0..3, names in any case, enum, get_tokens/get_ast/get_terms} x feature flags as a set of names (any case, aliases default/all/none; 2% bogus names, 2% bogus targets); `spec`: random specification trees (depth<=3: str / list of str, Term, junk / tuple / dict / Formula object / non-specification leaf) x _parser x _nested_parser x keyword structure; `resolve`: operator tokens made of sign runs and operator characters (length<=8, plus runs of 40-100 signs). "
     "non-trivial = contains an operator or bracket character; distinct by canonical JSON"
 )
 
@@ -70,9 +93,9 @@ def cases(rng, tier):
             s = "[" + s + "]" if rng.random() < 0.5 else s.replace("~", "~ [", 1) + "]"
         yield dict(kind="mutated", s=s, cfg=rng.choice(ALL_CFG), avail=rng.choice([None, ["a", "b", "x"]]))
     # exponent literals of `**` / `^` (the right operand must be a positive integer literal)
-    for base in ("a", "(a+b)", "a:b"):
+    for base in ("a", "(a+b)", "a:b", "(a+b+c)", "(a + a:b)", "(b:a + a + a:b)"):
         for op in ("**", "^", " ** "):
-            for ex in ("0", "00", "000", "01", "1", "2", "02", "1.", "1.0", ".5", "..", "-1", "+2", "(1)", "(00)", "(2)", "1e2",
+            for ex in ("0", "00", "000", "01", "1", "2", "02", "3", "4", "5", "7", "1.", "1.0", ".5", "..", "-1", "+2", "(1)", "(00)", "(2)", "1e2",
                        "0x1", "1_0", "b", "'2'", "2:3", "(2+3)", "(a-a)", "True", "١", "2 2", ""):
                 yield dict(kind="exponent", s=f"{base}{op}{ex}", cfg=rng.choice(ALL_CFG), avail=None)
     for _ in range(nrand // 8):
@@ -102,6 +125,317 @@ def cases(rng, tier):
         if rng.random() < 0.7:
             cfg["multistage"] = True
         yield dict(kind="multistage", s=s, cfg=cfg, avail=None)
+    for n in (120, 200, 400):  # stages nested deeper than the interpreter's recursion limit allows (known finding C14-F3)
+        yield dict(kind="multistage", s="[a~" * n + "b" + "]" * n, cfg=dict(ALL_CFG[0], multistage=True), avail=None)
+    yield from degenerate_cases(rng, tier, nrand)
+    yield from api_cases(rng, tier, nrand)
+    yield from deep_fragment_cases(rng, tier)
+    yield from big_exponent_cases(rng, tier)
+    yield from spec_cases(rng, tier, nrand)
+    yield from resolve_cases(rng, tier, nrand)
+
+
+# Python fragments (call-style, brace) that contain DEGENERATE back-quoted names. They reach utils/code.py
+# (sanitize_variable_names / sanitize_variable_name) only through sanitize_tokens -> sanitize_python_code; a top-level
+# empty pair is discarded by the tokenizer. The table below is run on EVERY seed of every tier (no randomness).
+DEGEN_NAMES = ["", " ", "  ", "\t", "\n", "_", "__", "1", "0", "123", "1a", "+", "+-*", "~", "|", "()", "(", "]", "{", "}", "%",
+               ".", ",", "#", "a#b", "a b", "a.b", "class", "if", "None", "True", "lambda", "\u00e9", "\u65e5\u672c", "\u0661",
+               "x" * 300, "_formulaic_a", "_formulaic_", "_formulaic_a_b", "a_b", "\ufb01", "x\u00b2", "e\u0301", "it's", "\\`", "\"", "'", "a'b", "a\"b", "\\", "a\\"]
+DEGEN_FRAGS = ["f(`{0}`)", "np.log(`{0}`)", "f(`{0}`, `{1}`)", "f(`{0}` + a)", "f(x, `{0}`)", "{{`{0}`}}", "{{`{0}` + a}}",
+               "{{`{0}` * `{1}`}}", "f(`{0}`)(`{1}`)", "f(g(`{0}`))", "f('`{0}`')", "f[`{0}`]", "`{0}`", "f(`{0}`", "f(`{0})"]
+DEGEN_POS = ["{0}", "{0} ~ x", "y ~ {0}", "y ~ a | {0}", "{0} | b ~ c", "{0} + {0}", "a + {0}", "[{0} ~ z]", "y ~ [a ~ {0}]"]
+
+
+def degenerate_cases(rng, tier, nrand):
+    i = 0
+    for n in DEGEN_NAMES:
+        for fr in DEGEN_FRAGS:  # each fragment shape alone, the second name ordinary
+            yield dict(kind="degenerate", s=fr.format(n, "a"), cfg=ALL_CFG[i % len(ALL_CFG)], avail=None)
+            i += 1
+        for k, po in enumerate(DEGEN_POS):  # every position; the name twice; mixed with another degenerate name
+            fr = DEGEN_FRAGS[(i + k) % 12]
+            other = [n, "a", DEGEN_NAMES[(i + 7 * k) % len(DEGEN_NAMES)]][k % 3]
+            cfg = dict(ALL_CFG[(i + k) % len(ALL_CFG)])
+            if "[" in po:
+                cfg["multistage"] = True
+            yield dict(kind="degenerate", s=po.format(fr.format(n, other)), cfg=cfg, avail=None)
+            i += 1
+    for _ in range(nrand // 8):  # random mixes
+        names = [rng.choice(DEGEN_NAMES + ["a", "b", "x y", "q"]) for _ in range(2)]
+        frag = rng.choice(DEGEN_FRAGS).format(*names)
+        if rng.random() < 0.3:
+            frag = frag + rng.choice([" + ", ":", " * ", " "]) + rng.choice(DEGEN_FRAGS).format(*reversed(names))
+        s2 = rng.choice(DEGEN_POS).format(frag)
+        if rng.random() < 0.2:
+            s2 = c01.mutate(rng, s2)
+        yield dict(kind="degenerate", s=s2, cfg=rng.choice(ALL_CFG), avail=rng.choice([None, None, ["a", "b", "x"]]))
+    for _ in range(nrand // 3):  # quote-heavy fragments: the alternatives of UNQUOTED_BACKTICK_MATCHER (escapes, quotes inside names, unterminated quotes)
+        body = "".join(rng.choice("ab`\"'\\ _1+`\"'\\x,") for _ in range(rng.randint(1, 12)))
+        frag = rng.choice(["f({0})", "{{{0}}}", "f({0}, `a b`)", "f(`a b`, {0})", "g('{0}')", "g(\"{0}\")"]).format(body)
+        yield dict(kind="degenerate", s=rng.choice(["{0}", "y ~ {0}", "{0} + `a b`"]).format(frag), cfg=rng.choice(ALL_CFG), avail=None)
+
+
+# strings that reach the branches of the parser no other stream reaches (string literals inside an interaction, a pooled sign
+# token that ends in `~` / `|`, an exponent that is a quoted string, the lone `.`)
+TARGETED = ["a:\"x\"", "'x':b", "a:'2'", "\"s\"*a", "a ~ +~ b", "~ +~a", "a | +| b", "a ~ -~ b", "y ~ +| x", "a +~ b", "a -| b",
+            "a ~ +~", "~+~", "|+|", ".", "a + .", "y ~ .", ". ~ a", "y ~ . - a", "(.)", ".:a", "a", "", " ", "1", "0", "y ~ a + 0",
+            ") f(1 +)", "f(1 +) )", "a b f(", "'x", "a 'x", "f(1 +) 'x", "[a ~ b]", "[[a ~ b] ~ c]", "a | b", "y ~ x | z",
+            "`a b`", "{a+1}", "f(x) + g(`a b`)", "a**2", "a**'2'", "a**\"x\"", "(a", "a)", "(a]", "[a)", "a +", "+ a", "a b"]
+
+FLAG_NAMES = ("twosided", "multipart", "multistage")
+
+
+def flag_names(rng, cfg):
+    """the feature flags of `cfg` as a set of NAMES, the way `feature_flags={...}` accepts them (any case, aliases)"""
+    on = [k for k in FLAG_NAMES if cfg[k]]
+    r = rng.random()
+    if r < 0.15 and on == ["twosided", "multipart"]:
+        names = [rng.choice(["default", "DEFAULT", "Default"])]
+    elif r < 0.15 and len(on) == 3:
+        names = [rng.choice(["all", "ALL"])]
+    elif r < 0.15 and not on:
+        names = rng.choice([[], ["none"], ["NONE"]])
+    else:
+        names = [rng.choice([k, k.upper(), k.capitalize()]) for k in on]
+        if rng.random() < 0.1:
+            names.append("none")
+        if rng.random() < 0.1 and "twosided" in on and "multipart" in on:
+            names.append("default")
+    rng.shuffle(names)
+    return names
+
+
+def api_cases(rng, tier, nrand):
+    """every entry point around get_terms: parse(target=...) / get_tokens / get_ast / get_terms, on DefaultFormulaParser
+    and on the base class FormulaParser(operator_resolver=DefaultOperatorResolver(<flag names>))"""
+    pool = list(TARGETED)
+    for _ in range(nrand // 3):
+        r = rng.random()
+        if r < 0.35:
+            n = rng.randint(1, 8)
+            s = "".join(rng.choice(EXT) for _ in range(n))
+        elif r < 0.6:
+            s = "".join(rng.choice(SHORT) for _ in range(rng.randint(1, 5)))
+        elif r < 0.85:
+            f = pc.gen_formula(rng, depth=rng.choice([1, 2]), dot=rng.random() < 0.3)
+            try:  # the grammar streams bound the size of expansions (powers of large sums); do the same here
+                pc.denote(pc.to_lists(f), dict(pc.CFG_DEFAULT, multistage=True), ["a"], ordered=False)
+            except pc.TooBig:
+                continue
+            except Exception:
+                pass
+            s = pc.render_formula(f, rng)
+            if rng.random() < 0.5:
+                s = c01.mutate(rng, s)
+        else:
+            s = gen_stage(rng, 1)
+            if rng.random() < 0.3:
+                s = c01.mutate(rng, s)
+        if c01.BIG_EXPONENT.search(s):
+            continue
+        pool.append(s)
+    i = 0
+    for s in TARGETED:  # fixed table: both parser classes x the three parsing targets, on every seed
+        for parser in ("base", "default"):
+            for target in (1, 2, 3):
+                cfg = ALL_CFG[i % len(ALL_CFG)]
+                i += 1
+                yield dict(kind="api", s=s, cfg=cfg, parser=parser, target=target, via="parse",
+                           flags=[k for k in FLAG_NAMES if cfg[k]], bogus=None, avail=["a", "b", "x"] if i % 2 else None,
+                           availvia="layer" if i % 4 == 1 else "key")
+    for s in pool:
+        cfg = dict(rng.choice(ALL_CFG))
+        parser = rng.choice(["default", "default", "base"])
+        target = rng.choice([0, 1, 2, 3, 3, "tokens", "ast", "terms", "formula", "TOKENS", "Ast", "TERMS"])
+        via = rng.choice(["parse", "parse", "enum", "method"])
+        flags = flag_names(rng, cfg)
+        bogus = None
+        if rng.random() < 0.02:
+            bogus = "flag"
+            flags = flags + [rng.choice(["bogus", "twosided ", "name", "", "from_spec"])]
+        elif rng.random() < 0.02:
+            bogus = "target"
+            target = rng.choice([4, 7, -1, "bogus", "term", ""])
+            via = "parse"
+        yield dict(kind="api", s=s, cfg=cfg, parser=parser, target=target, via=via, flags=flags, bogus=bogus,
+                   avail=rng.choice([None, ["a", "b", "x"]]), availvia=rng.choice(["key", "key", "layer"]))
+
+
+# ----------------------------------------------------------------------------- Python fragments CPython cannot digest
+
+def deep_fragment_cases(rng, tier):
+    """valid-looking Python fragments whose nesting (or encoding) exceeds what CPython's parser / ast.unparse accept:
+    the parser's RecursionError / MemoryError / UnicodeEncodeError must not escape (fixed table, every seed)"""
+    n = 1200  # CPython 3.12 with the default recursion limit gives up around 500 levels
+    frags = [
+        "f(" + "-" * n + "x)", "f(" + "not " * n + "x)", "f(x" + ".a" * n + ")", "f" + "(x)" * n, "f(" + "+".join(["x"] * n) + ")",
+        "f(" + "x if x else " * 600 + "x)", "f(x" + "[0]" * n + ")", "f(" + "**".join(["x"] * n) + ")",
+        "{" + "-" * n + "x}", "f(" + "(" * 600 + "x" + ")" * 600 + ")", "f(" + "9" * 5000 + ")", "f(\x00)",
+        "f(\ud800)", "f('\ud800')", "{'\udfff' + a}", "f(`\ud800`)", "np.log(" + " + ".join("x%d" % i for i in range(600)) + ")",
+    ]
+    for i, fr in enumerate(frags):
+        for po in ("{0}", "y ~ a + {0}", "{0} ~ x"):
+            yield dict(kind="deepfrag", s=po.format(fr), cfg=ALL_CFG[(3 * i) % len(ALL_CFG)], avail=None)
+
+
+# ----------------------------------------------------------------------------- exponents the model cannot expand
+
+BIG_EXPONENTS = ["10", "11", "25", "99", "100", "4096", "999999999", "9" * 30, "1" + "0" * 100, "9" * 4000, "9" * 5000]
+BIG_BASES = ["a", "(a+b)", "(a + b + c)", "(a-a)", "a:b", "(a+b+c+d+e)", "f(x)", "(y ~ a)"]
+
+
+def big_exponent_cases(rng, tier):
+    """`base ** E` with E of two or more digits. ORACLE ONLY: the Lean model expands the E-fold product literally and cannot
+    be run on these; the oracle checks the outcome class, termination (case timeout) and that the result is the one of the
+    same formula with the exponent 5 (no base below has more than 5 terms)."""
+    i = 0
+    for b in BIG_BASES:
+        for e in BIG_EXPONENTS:
+            op = ("**", "^", " ** ")[i % 3]
+            yield dict(kind="bigexp", s=f"{b}{op}{e}", small=f"{b}{op}5", cfg=ALL_CFG[i % len(ALL_CFG)], avail=None)
+            i += 1
+
+
+# ----------------------------------------------------------------------------- Formula(<non-string specification>)
+
+SPEC_STRS = ["x", "x + z", "x | z", "y ~ x", "a:b - 1", "[x ~ z]", "x ~ z | w", "(", "a +", "~ q", "", "1", "0", "a + a",
+             "b:a + a", "f(", "f(1 +)", "a | b | c", "y ~ (a | b)", "-x", ".", "x - x", "[[a ~ b] ~ c]", "f(``)", "a:'s'"]
+SPEC_OTHERS = ["none", "int", "float", "bool", "bytes", "obj", "term", "iter", "frozenset", "nan", "complex", "range"]
+ITEM_OTHERS = ["none", "int", "float", "list", "tuple", "formula", "bool", "dict", "bytes"]
+SPEC_KEYS = ["lhs", "rhs", "root", "a", "b", "deps", "x y", ""]
+
+
+def gen_item(rng):
+    r = rng.random()
+    if r < 0.6:
+        return {"str": rng.choice(SPEC_STRS)}
+    if r < 0.8:
+        return {"term": rng.choice([[["q", "lookup"]], [["a", "lookup"], ["b", "lookup"]], [["1", "literal"]], [],
+                                    [["2", "literal"], ["f(x)", "python"]]])}
+    return {"other": rng.choice(ITEM_OTHERS)}
+
+
+def gen_spec(rng, depth):
+    r = rng.random()
+    if depth <= 0 or r < 0.35:
+        if r < 0.06:
+            return {"other": rng.choice(SPEC_OTHERS)}
+        return {"str": c01.mutate(rng, rng.choice(SPEC_STRS)) if rng.random() < 0.1 else rng.choice(SPEC_STRS)}
+    if r < 0.5:
+        return {"list": [gen_item(rng) for _ in range(rng.randint(0, 3))]}
+    if r < 0.65:
+        return {"tuple": [gen_spec(rng, depth - 1) for _ in range(rng.randint(0, 3))]}
+    if r < 0.85:
+        return {"dict": [[k, gen_spec(rng, depth - 1)] for k in rng.sample(SPEC_KEYS, rng.randint(0, 3))]}
+    if r < 0.95:
+        return {"formula": gen_spec(rng, depth - 1)}
+    return {"other": rng.choice(["none", "int", "term"])}
+
+
+def _other(name):
+    from formulaic.parser.types import Factor, Term
+
+    return {"none": None, "int": 5, "float": 2.5, "bool": True, "bytes": b"ab", "obj": object(), "nan": float("nan"),
+            "complex": 1j, "range": range(3), "term": Term([Factor("q")]), "iter": iter(["a"]), "frozenset": frozenset(["a"]),
+            "list": ["b"], "tuple": ("a",), "dict": {"a": "b"}}[name]
+
+
+def build_spec(spec):
+    """the Python object a specification description stands for"""
+    from formulaic import Formula
+    from formulaic.parser.types import Factor, Term
+
+    k, v = next(iter(spec.items()))
+    if k == "str":
+        return v
+    if k == "other":
+        return Formula("a") if v == "formula" else _other(v)
+    if k == "term":
+        return Term([Factor(e, eval_method=m) for e, m in v])
+    if k == "formula":
+        return Formula(build_spec(v))
+    if k == "list":
+        return [build_spec(i) for i in v]
+    if k == "tuple":
+        return tuple(build_spec(x) for x in v)
+    return {kk: build_spec(x) for kk, x in v}
+
+
+def _formulas_buildable(spec):
+    from formulaic import Formula
+
+    k, v = next(iter(spec.items()))
+    if k == "formula":
+        try:
+            Formula(build_spec(v))
+        except Exception:
+            return False
+        return _formulas_buildable(v)
+    if k == "tuple":
+        return all(_formulas_buildable(x) for x in v)
+    if k == "dict":
+        return all(_formulas_buildable(x) for _, x in v)
+    return True
+
+
+def _spec_strings(spec, out):
+    k, v = next(iter(spec.items()))
+    if k == "str":
+        out.append(v)
+    elif k in ("list", "tuple"):
+        for x in v:
+            _spec_strings(x, out)
+    elif k == "dict":
+        for _, x in v:
+            _spec_strings(x, out)
+    elif k == "formula":
+        _spec_strings(v, out)
+    return out
+
+
+def _spec_only_strings(spec):
+    """only dictionaries / tuples of strings: no list, no non-specification leaf"""
+    k, v = next(iter(spec.items()))
+    if k == "str":
+        return True
+    if k == "tuple":
+        return all(_spec_only_strings(x) for x in v)
+    if k == "dict":
+        return all(_spec_only_strings(x) for _, x in v)
+    return False
+
+
+def spec_cases(rng, tier, nrand):
+    """Formula(<list / tuple / dict / keyword specification>) with string, Term, Formula and non-specification leaves"""
+    cfgs = [None] + ALL_CFG
+    for _ in range(nrand // 2):
+        spec = gen_spec(rng, 3)
+        P, N = rng.choice(cfgs), rng.choice([None, None] + cfgs)
+        kw = None
+        if rng.random() < 0.25:
+            kw = [[k, gen_spec(rng, 2)] for k in rng.sample(["lhs", "rhs", "a", "b"], rng.randint(0, 2))]
+            if rng.random() < 0.3:
+                spec = None
+        parts = ([spec] if spec is not None else []) + [x for _, x in (kw or [])]
+        if not all(_formulas_buildable(x) for x in parts):
+            continue
+        yield dict(kind="spec", s=json.dumps(spec)[:60], root=spec, kw=kw, P=P, N=N, cfg=P or pc.CFG_DEFAULT, avail=None)
+
+
+# ----------------------------------------------------------------------------- DefaultOperatorResolver.resolve (the sign loop)
+
+RESOLVE_TEXTS = ["+", "-", "++", "--", "+-", "-+", "+-+", "---", "~", "~-", "~--", "~+-", ":--", "*++", "*-", "**", "**-", "^--+",
+                 "|", "|-", "|~", "+~", "-~-", "~~", "in", "%", "%in%", ".", ".-", "+.", "--.--", "++~--|+-", "=", "+=", "", "-" * 40,
+                 "+-" * 25 + "~" + "-+" * 25]
+
+
+def resolve_cases(rng, tier, nrand):
+    texts = list(RESOLVE_TEXTS)
+    for _ in range(nrand // 4):
+        texts.append("".join(rng.choice("+-+-+-~|*:/^.") for _ in range(rng.randint(1, 8))))
+    for t in texts:
+        cfg = rng.choice(ALL_CFG)
+        yield dict(kind="resolve", s=t, cfg=cfg, flags=flag_names(rng, cfg), avail=None)
 
 
 def gen_stage(rng, depth):
@@ -117,6 +451,8 @@ def gen_stage(rng, depth):
 
 
 def describe(c):
+    if c["kind"] == "api":
+        return f"api/{c['parser']}/{str(c['target']).lower()}"
     return c["kind"]
 
 
@@ -179,7 +515,98 @@ def impl_nested(c):
     return out
 
 
+TARGET_LEVEL = {"formula": 0, "tokens": 1, "ast": 2, "terms": 3}
+
+
+def impl_api(c):
+    """the real entry point named by the case; observable: error class, or the value at that target"""
+    from formulaic.parser import DefaultFormulaParser, DefaultOperatorResolver
+    from formulaic.parser.types import FormulaParser
+
+    ctx = {"__formulaic_variables_available__": c["avail"]} if c["avail"] is not None else {}
+    if c["avail"] is not None and c.get("availvia") == "layer":  # the variables come from a named `data` layer
+        from formulaic.utils.layered_mapping import LayeredMapping
+
+        ctx = LayeredMapping({"unrelated": 0}, LayeredMapping({v: 0 for v in c["avail"]}, name="data"))
+    try:
+        if c["parser"] == "base":
+            P = FormulaParser(operator_resolver=DefaultOperatorResolver(feature_flags=set(c["flags"])))
+        else:
+            P = DefaultFormulaParser(include_intercept=c["cfg"]["intercept"], feature_flags=set(c["flags"]))
+        t = c["target"]
+        lvl = t if isinstance(t, int) else TARGET_LEVEL.get(t.lower())
+        if c["via"] == "method" and lvl in (1, 2, 3):
+            r = {1: P.get_tokens, 2: P.get_ast, 3: P.get_terms}[lvl](c["s"], context=ctx)
+        else:
+            if c["via"] == "enum" and lvl in (0, 1, 2, 3):
+                t = P.Target(lvl)
+            r = P.parse(c["s"], target=t, context=ctx)
+        if lvl == 0:
+            return {"formula": r == c["s"]}
+        if lvl == 1:
+            return {"tokens": [[x.token, x.kind.value if x.kind else "none"] for x in r]}
+        if lvl == 2:
+            return {"ast": None if r is None else r.flatten(str_args=True)}
+        return {"terms": pc.canon_val(r)}
+    except Exception as e:
+        return {"error": pc.exc_class(e)}
+
+
+def impl_spec(c):
+    from formulaic import Formula
+    from formulaic.errors import FormulaInvalidError
+
+    try:
+        kwargs = {}
+        if c["P"] is not None:
+            kwargs["_parser"] = pc.make_parser(c["P"])
+        if c["N"] is not None:
+            kwargs["_nested_parser"] = pc.make_parser(c["N"])
+        args = [build_spec(c["root"])] if c["root"] is not None else []
+        kw = {k: build_spec(x) for k, x in (c["kw"] or [])}
+        return {"formula": pc.canon_val(Formula(*args, **kwargs, **kw))}
+    except Exception as e:
+        if isinstance(e, FormulaInvalidError):
+            return {"error": "FormulaInvalidError"}
+        return {"error": pc.exc_class(e)}
+
+
+def impl_resolve(c):
+    from formulaic.parser import DefaultOperatorResolver
+    from formulaic.parser.types import Token
+
+    try:
+        r = DefaultOperatorResolver(feature_flags=set(c["flags"]))
+        return {"groups": [[[o.symbol, o.arity, bool(o.disabled)] for o in ops]
+                           for _, ops in r.resolve(Token(c["s"], kind="operator"))]}
+    except Exception as e:
+        return {"error": pc.exc_class(e)}
+
+
+def impl_bigexp(c):
+    out = pc.impl_terms(c["s"], c["cfg"])
+    out["small"] = pc.impl_terms(c["small"], c["cfg"])
+    return out
+
+
 def impl(c):
+    try:
+        return _impl(c)
+    except BaseException as e:  # the driver's per-case wall-clock cap: a hang is an outcome the oracle must see
+        if type(e).__name__ == "CaseTimeout":
+            return {"error": "timeout"}
+        raise
+
+
+def _impl(c):
+    if c["kind"] == "bigexp":
+        return impl_bigexp(c)
+    if c["kind"] == "api":
+        return impl_api(c)
+    if c["kind"] == "spec":
+        return impl_spec(c)
+    if c["kind"] == "resolve":
+        return impl_resolve(c)
     if c["kind"] == "reconfig":
         return impl_reconfig(c)
     if c["kind"] == "nested":
@@ -187,15 +614,127 @@ def impl(c):
     return pc.impl_terms(c["s"], c["cfg"], c.get("avail"))
 
 
+def _spec_request(spec):
+    """the specification with every string leaf replaced by the per-string data the model needs"""
+    k, v = next(iter(spec.items()))
+    if k == "str":
+        r = request_for(v, "terms")
+        return {"str": {x: r[x] for x in ("s", "w", "sp", "norm", "pyvars", "avail", "cc", "fmt")}}
+    if k in ("list", "tuple"):
+        return {k: [_spec_request(x) for x in v]}
+    if k == "dict":
+        return {"dict": [[kk, _spec_request(x)] for kk, x in v]}
+    if k == "formula":
+        return {"formula": _spec_request(v)}
+    return spec
+
+
+_WORD = re.compile(r"\w")
+
+
+def fmt_env(s):
+    """what the model's `sanitize_python_code` needs from CPython for the string `s`: the Unicode classes of its characters,
+    and the result of `format_expr` (ast.parse + ast.unparse) on the expression that the REAL sanitize_variable_names makes of
+    every Python token the real tokenizer finds (keyed by that expression: the model must arrive at the same one)"""
+    from formulaic.parser.algos.tokenize import tokenize
+    from formulaic.parser.types import Token
+    from formulaic.utils.code import format_expr, sanitize_variable_names
+
+    cc = [[ch, bool(_WORD.match(ch)), ch.isdigit(), ch.isspace()] for ch in dict.fromkeys(s + " _")]  # " " and "_" are inserted by the code
+    toks = []
+    try:
+        for t in tokenize(s):
+            toks.append(t)
+    except Exception:
+        pass
+    fmt, seen = [], set()
+    for t in toks:
+        if t.kind is Token.Kind.PYTHON and t.token not in seen:
+            seen.add(t.token)
+            try:
+                e1 = _limited(lambda: sanitize_variable_names(t.token, {}, {}, template="_formulaic_{}"))
+            except BaseException:  # raised, or did not return: the model finds no entry for ITS expression (fmt-missing)
+                continue
+            try:
+                fmt.append(dict(k=e1, ok=format_expr(e1)))
+            except Exception as e:
+                fmt.append(dict(k=e1, mro=[k.__name__ for k in type(e).__mro__]))
+    return cc, fmt
+
+
+class _TooLong(BaseException):
+    pass
+
+
+def _limited(fn, seconds=3):
+    """run `fn` under a wall-clock cap (request() is called outside the driver's per-case cap)"""
+    import signal
+
+    def onalarm(signum, frame):
+        raise _TooLong()
+
+    old = signal.signal(signal.SIGALRM, onalarm)
+    signal.alarm(seconds)
+    try:
+        return fn()
+    finally:
+        signal.alarm(0)
+        signal.signal(signal.SIGALRM, old)
+
+
+def request_for(s, op, cfg=None, avail=None):
+    try:
+        r = _limited(lambda: pc.request_for(s, op, cfg, avail), 10)
+    except _TooLong:  # the real sanitize_python_code does not return on this string: send the string without CPython data
+        w, sp = pc.char_flags(s)
+        r = dict(op=op, s=s, w=w, sp=sp, cfg=cfg or pc.CFG_DEFAULT, norm=[], pyvars=[], avail=avail)
+    r["cc"], r["fmt"] = fmt_env(s)
+    return r
+
+
 def request(c, o):
-    return pc.request_for(c["s"], "terms", c["cfg"], c.get("avail"))
+    if c["kind"] == "bigexp":  # oracle only: the model is asked about the exponent-5 formula
+        return request_for(c["small"], "terms", c["cfg"], None)
+    if c["kind"] == "spec":
+        return dict(op="spec", P=c["P"], N=c["N"], root=None if c["root"] is None else _spec_request(c["root"]),
+                    kw=[[k, _spec_request(x)] for k, x in (c["kw"] or [])])
+    if c["kind"] == "resolve":
+        return dict(op="resolve", text=c["s"], flags=c["flags"])
+    if c["kind"] == "api":
+        r = request_for(c["s"], "api", c["cfg"], c.get("avail"))
+        r.update(parser=c["parser"], flags=c["flags"], intercept=c["cfg"]["intercept"], target=c["target"])
+        return r
+    return request_for(c["s"], "terms", c["cfg"], c.get("avail"))
+
+
+def _nosurr(x):
+    """lone surrogates cannot travel through the JSON line protocol (Lean reads them as U+FFFD)"""
+    if isinstance(x, str):
+        return "".join("\ufffd" if 0xD800 <= ord(ch) <= 0xDFFF else ch for ch in x)
+    if isinstance(x, list):
+        return [_nosurr(y) for y in x]
+    if isinstance(x, dict):
+        return {_nosurr(k): _nosurr(v) for k, v in x.items()}
+    return x
 
 
 def agree(c, o, m):
     if "driver_error" in m:
         return "driver: " + m["driver_error"][:300]
+    if c["kind"] == "deepfrag":
+        o = _nosurr(o)
+    if c["kind"] == "bigexp":  # model vs implementation on the exponent-5 formula
+        o = o["small"]
     if "error" in o or "error" in m:
-        return None if o.get("error") == m.get("error") else f"impl {o.get('error', 'ok')} vs model {m.get('error', 'ok')}"
+        # when several nodes of the tree fail, the implementation's topological evaluation order decides which exception
+        # escapes; the model lists the classes of all minimal failing nodes (`alt`, proved to contain its own answer)
+        if o.get("error") == m.get("error") or ("error" in o and o["error"] in m.get("alt", [])):
+            return None
+        return f"impl {o.get('error', 'ok')} vs model {m.get('error', 'ok')}" + (f" (or {m['alt']})" if m.get("alt") else "")
+    if c["kind"] == "api":
+        return None if o == m else f"accepted, but the values at target {c['target']!r} differ"
+    if c["kind"] in ("spec", "resolve"):
+        return None if o == m else "accepted, but the values differ"
     return None if o.get("terms") == m.get("terms") else "accepted, but the term structures differ"
 
 
@@ -234,6 +773,23 @@ def _has(v, what):
     return False
 
 
+def _ast_nodes(a):
+    if isinstance(a, list):
+        yield a
+        for x in a[1:]:
+            yield from _ast_nodes(x)
+
+
+def _oracle_ast(a, cfg):
+    """a syntax tree (flattened: [symbol, *args]) never contains an operator that the feature flags disable"""
+    for n in _ast_nodes(a):
+        if n[0] == "|" and not cfg["multipart"]:
+            return "the syntax tree has a `|` node although MULTIPART is disabled"
+        if n[0] == "~" and len(n) == 3 and not cfg["twosided"] and not cfg["multistage"]:
+            return "the syntax tree has a two-argument `~` node although TWOSIDED and MULTISTAGE are disabled"
+    return None
+
+
 def _oracle_nested(c, o):
     whole, each = o["whole"], o["each"]
     bad = [k for k, v in each.items() if "error" in v]
@@ -259,22 +815,62 @@ def _oracle_nested(c, o):
     return None
 
 
+def _oracle_spec(c, o):
+    """Formula(<specification>) returns a formula or raises FormulaParsingError / a fragment's SyntaxError (from a string
+    leaf) / FormulaInvalidError (a leaf that is no specification); never an internal exception type"""
+    e = o.get("error")
+    if e is None or e == "FormulaParsingError":
+        return None
+    parts = ([c["root"]] if c["root"] is not None else []) + [x for _, x in (c["kw"] or [])]
+    strings = [s for p_ in parts for s in _spec_strings(p_, [])]
+    if e == "SyntaxError":
+        return None if any(_fragment_invalid(s) for s in strings) else "plain SyntaxError although every Python fragment of every string leaf parses on its own"
+    if e == "FormulaInvalidError":
+        if parts and all(_spec_only_strings(p_) for p_ in parts):
+            return "FormulaInvalidError for a specification made of strings only (no list, no non-specification leaf)"
+        return None
+    return f"Formula(<specification>) let an internal exception type escape: {e}"
+
+
 def oracle(c, o):
     if "harness_exception" in o:
         return "parsing did not terminate / harness failure: " + o["harness_exception"]
+    if o.get("error") == "timeout":
+        return "parsing did not terminate within the per-case wall-clock cap"
     if c["kind"] == "nested":
         w = _oracle_nested(c, o)
         if w:
             return w
+    if c["kind"] == "spec":
+        return _oracle_spec(c, o)
+    if c["kind"] == "bigexp":
+        small = o.get("small", {})
+        if "terms" in o and "terms" in small and o["terms"] != small["terms"]:
+            return (f"{c['s'][:40]!r} and {c['small']!r} are both accepted but give different term sets: a power beyond the "
+                    "number of terms must not change the result")
+    if c["kind"] == "resolve":
+        e = o.get("error")
+        return None if e in (None, "FormulaParsingError") else f"resolve({c['s']!r}) let an internal exception type escape: {e}"
     e = o.get("error")
     if e is not None:
         if e == "FormulaParsingError":
             return None
         if e == "SyntaxError":
             return None if _fragment_invalid(c["s"]) else "plain SyntaxError although every Python fragment parses on its own"
+        if c.get("bogus") == "flag" and e == "internal:AttributeError":
+            return None  # a feature-flag NAME that does not exist: a configuration error, outside the property
+        if c.get("bogus") == "target" and e in ("internal:ValueError", "internal:KeyError"):
+            return None  # a parse target that does not exist: a configuration error, outside the property
         return f"internal exception type escaped: {e}"
-    v = o["terms"]
     cfg = c["cfg"]
+    if c["kind"] == "api":
+        if "formula" in o:
+            return None if o["formula"] is True else "target FORMULA did not return the input string"
+        if "tokens" in o:
+            return None
+        if "ast" in o:
+            return _oracle_ast(o["ast"], cfg)
+    v = o["terms"]
     if not cfg["twosided"] and _has(v, "sides") and not _has(v, "deps"):
         return "result has lhs/rhs although TWOSIDED is disabled"
     if not cfg["multipart"] and _has(v, "tuple") and not _has(v, "deps"):
@@ -285,14 +881,22 @@ def oracle(c, o):
 
 
 def classify(c, o, why):
-    if c["cfg"].get("multistage") and o.get("error") == "internal:NotImplementedError":
+    ms = c["cfg"].get("multistage")
+    if c["kind"] == "spec":  # any parser involved may have the flag (the default parsers do not)
+        ms = any(p and p.get("multistage") for p in (c["P"], c["N"]))
+    if ms and o.get("error") == "internal:NotImplementedError":
         return "C14-F1"
+    if ms and o.get("error") == "internal:RecursionError" and str(c.get("s", "")).count("[") >= 100:
+        return "C14-F3"
     return None
 
 
 LEVEL_TEXT = (
-    "Proof: the model keeps every Python operation that can raise a non-parsing exception as an explicit 'internal' outcome; Lean theorems show for ALL token lists and ALL operator tables that every shunting-yard failure is the parsing error, for ALL strings that tokenisation/rewriting fails only with the parsing error or with SyntaxError exactly when an embedded Python fragment is rejected by Python, and for ALL expressions of the arithmetic fragment (unbounded nesting) that evaluation yields a term set or the parsing error. For parsers without the experimental MULTISTAGE flag the unrestricted statement IS proved (no_internal_error: for every string, both intercept settings and every TWOSIDED/MULTIPART subset, parsing yields a term structure, the parsing error or a fragment's SyntaxError, never an internal exception; by a shape invariant of the shunting-yard loop derived from the context-acceptance rules). With MULTISTAGE it is false of the code (known finding C14-F1) and is covered by the correspondence on exhaustive short strings (length<=3 quick, <=4 thorough) over an adversarial alphabet, random Unicode strings, mutated formulas and multistage nestings, with the outcome-class oracle on the real parser."
+    "Proof: the model keeps every Python operation that can raise a non-parsing exception as an explicit 'internal' outcome. Lean theorems (27) show, for ALL token lists and ALL operator tables, that every shunting-yard failure is the parsing error and that no disabled operator occurs in a returned tree; for ALL strings that tokenisation/rewriting fails only with the parsing error or with SyntaxError exactly when an embedded Python fragment is rejected by Python; and, for ALL strings, both intercept settings and ALL EIGHT feature-flag subsets, that get_terms yields a term structure, the parsing error or a fragment's SyntaxError — never an internal exception — with ONE exception that is characterised exactly: under MULTISTAGE the NotImplementedError of known finding C14-F1, which requires a multistage `~` with a multistage `~` inside its left argument (internal_error_only_nested_multistage; no_internal_error for MULTISTAGE off; no_internal_error_multistage_partial with the excluding hypothesis and nested_multistage_escapes as the negative witness). Two shape invariants of the index-based shunting-yard carry this (no structural operator below a non-structural one; a multistage `~` entry sits directly on a `[` entry). The same statement is proved for every other entry point that is modelled: parse(target=...) at every target level, get_tokens/get_ast (parse_targets_internal), the base class FormulaParser with its lazy token stream (base_parser_internal, base_parser_tree), and Formula(<specification tree>) with string, Term, Formula and non-specification leaves, lists, tuples, dictionaries and keyword structure of unbounded nesting (formula_spec_internal). Termination: every model function is structural recursion except two fuelled ones, both with sufficiency theorems — the sign-collapsing `while True` loop of resolve (resolve_loop_terminates: it breaks within len(token) iterations and equals the one-pass function the parser model uses) and Structured._merge (merge_fuel_suffices). Token.to_factor's KeyError/RuntimeError branches (read from the live package) are proved unreachable on every leaf of every returned tree (leaves_accepted_by_to_factor). The Python-fragment normaliser is modelled down to CPython: sanitize_variable_names (the repaired back-quote regular expression, whole back-quoted names, the words reserved by the code, ASCII base names, the alias-collision loop with keywords and reserved words) and the one-pass restoration of aliases are the Lean functions of Model/PyAlias.lean (shared with C15), wrapped by the try/except of sanitize_python_code (Model/SanitizeNames.lean) and run by the correspondence; the alias loop terminates for every alias table, environment, reserved set and name (alias_loop_terminates, from Proofs/C15Loop.lean), the normaliser fails only with SyntaxError (normaliser_fails_only_with_syntax_error) and the main theorem holds assuming only that ast.parse/ast.unparse raise SyntaxError, RecursionError, MemoryError or UnicodeError (internal_error_down_to_format_expr). The order in which graphlib evaluates the tree does not matter: every minimal failing node's error is the parsing error or the known NotImplementedError (first_error_any_order). The model is tied to the code by the differential correspondence on the streams listed in the rule, and the outcome-class oracle runs on the real entry points."
 )
 LEVEL_NOTE = (
-    'Trusted: Lean kernel + the three standard axioms; the hand model validated by correspondence on the outcome class; sanitize_python_code (CPython ast) is a parameter assumed to raise only SyntaxError (checked per case: any other class is reported as internal).'
+    "Trusted: Lean kernel + the three standard axioms; the hand model validated by correspondence (outcome class AND value: term structures, tokens, syntax trees, formulas, resolved operator groups). "
+    "Parameters, not verified: format_expr (ast.parse + ast.unparse) enters as per-case data and is assumed to raise only SyntaxError / RecursionError / MemoryError / UnicodeError — checked per case (any other class is reported as internal), exercised by the `degenerate` and `deepfrag` tables; Python's re classes \\w, \\s of the tokenizer and str.isspace. "
+    "Only observed (oracle, no theorem): exponents of two or more digits (`bigexp`; the code expands min(n, #terms) copies, the model n copies literally — their equality for n >= #terms is not proved in Lean, see the FULL (unproved) block of Props/C14.lean), parsers with a history (`reconfig`), the assignment form of structured specifications (`nested`/assign), the interpreter's recursion limit (C14-F3). "
+    "Not covered: error MESSAGES (only the class), Token API not used by the parser (__lt__, split(before=), source_loc), repr/flatten of trees deeper than the recursion limit, custom operator resolvers."
 )
